@@ -12,7 +12,7 @@ from props import _hist as H
 
 PID = "C08"
 RULE = (
-    "(a) own volume factor: roots fabric(6) x regime(2) x assemblage ordering(2) x fraction pair(5) "
+    "(a) own volume factor: roots fabric(6) x regime(2) x assemblage ordering(2) x fraction pair(6 incl. both end members) "
     "x <=1 deviation over (texture, volumes, n_grains, parameter set); ALL update sequences to depth 2 "
     "with a lock-step twin = the same mineral run single-phase with M* replaced by phi_own.M*; "
     "(b) twin = assemblage and fraction lists permuted together; (c) pydrex.update_all with the "
@@ -33,7 +33,7 @@ ASSUMPTIONS = [
 ]
 BOUND = {"quick": "depth 2; 2 and 3 minerals x 2 updates (6 + 90 interleavings) x 4 flow pairs", "thorough": "depth 3; 3 minerals x 2 updates and 2 minerals x 3 updates (20 interleavings)"}
 
-FRACS = [(0.7, 0.3), (0.5, 0.5), (0.3, 0.7), (0.1, 0.9), (1.0, 0.0)]
+FRACS = [(0.7, 0.3), (0.5, 0.5), (0.3, 0.7), (0.1, 0.9), (1.0, 0.0), (0.0, 1.0)]
 PRMS = ["default", "M200", "M10", "chi0"]
 
 
